@@ -4,7 +4,7 @@ import itertools
 import glob
 import os
 
-NOW = 1_000_000_000  # 2001-09-09T01:46:40Z
+NOW = 1_000_000_000  # 2001-09-09T01:46:40Z  (a Cfg's `now` may also be a string "<seconds>.<nanoseconds>")
 
 DELIMS = [
     ("<", ">"),
